@@ -51,7 +51,10 @@ def mk_shell(d, cls=GeneralizedContractionShell, **kw):
 
 
 def mk_basis(shells, **kw):
-    return [mk_shell(d, **kw) for d in shells]
+    """A list for an even number of shells, a tuple for an odd number (both are documented containers; make_contractions
+    returns a tuple)."""
+    out = [mk_shell(d, **kw) for d in shells]
+    return out if len(out) % 2 == 0 else tuple(out)
 
 
 def nfunc(d, ctype=None):
